@@ -4,7 +4,6 @@ package agreement
 // (header completed below once the bounds are frozen)
 
 import (
-	"encoding/json"
 	"fmt"
 	"testing"
 
@@ -16,16 +15,16 @@ import (
 // c01Oracle checks one transition: every ensureAction agrees with every block any honest node
 // holds (before the step) and with the other ensureActions of the step; the mock ledger saw no
 // conflicting write; the state machine did not panic.
-func c01Oracle(r *ve.Run, id string, cfgName string, pre *eagrSys, e eagrEv, out *eagrOut, path func() []eagrEv) {
-	replay := func() any {
-		return map[string]any{"engine": "E-AGR", "config": cfgName, "events": path()}
-	}
+func c01Oracle(r *ve.Run, b *eagrBFS, pre *eagrSys, e eagrEv, post *eagrSys, out *eagrOut, path func() []eagrEv) {
 	if out.panicMsg != "" {
-		r.Report(id+":panic", fmt.Sprintf("[%s] after %v: %s", cfgName, e, out.panicMsg), replay())
+		r.Report("C01:panic", fmt.Sprintf("[%s] after %v: %s", b.name, e, out.panicMsg), eagrReplayOf(b, path))
 		return
 	}
 	for _, c := range out.conflicts {
-		r.Report(id+":ledger-conflict", fmt.Sprintf("[%s] after %v: %s", cfgName, e, c), replay())
+		r.Report("C01:ledger-conflict", fmt.Sprintf("[%s] after %v: %s", b.name, e, c), eagrReplayOf(b, path))
+	}
+	if len(out.commits) == 0 {
+		return
 	}
 	seen := map[basics.Round]crypto.Digest{}
 	for _, n := range pre.nodes {
@@ -37,103 +36,18 @@ func c01Oracle(r *ve.Run, id string, cfgName string, pre *eagrSys, e eagrEv, out
 		rnd := c.act.Certificate.Round
 		d := c.act.Payload.Digest()
 		if old, ok := seen[rnd]; ok && old != d {
-			r.Report(id+":fork", fmt.Sprintf("[%s] after %v: node %d commits block %v for round %d (period %d) but block %v was already committed for that round by an honest node",
-				cfgName, e, c.node, d, rnd, c.period, old), replay())
+			r.Report("C01:fork", fmt.Sprintf("[%s] after %v: node %d commits block %v for round %d (period %d) but block %v was already committed for that round by an honest node",
+				b.name, e, c.node, d, rnd, c.period, old), eagrReplayOf(b, path))
 		}
 		seen[rnd] = d
 	}
 }
 
-type c01Replay struct {
-	Config string   `json:"config"`
-	Events []eagrEv `json:"events"`
-}
-
-func c01BFSConfigs() []*eagrBFS {
-	env := eagrGetEnv(3, 2)
-	mk := func(name string, proposers []bool, maxStep step, crashes int, maxStates int64) *eagrBFS {
-		cfg := &eagrCfg{env: env, nNodes: 3, atomicVerify: true, atomicLoop: true, flightSet: true,
-			maxRound: 1, maxPeriod: 1, proposers: proposers}
-		return &eagrBFS{name: name, cfg: cfg, maxStep: maxStep, maxCrashes: crashes, maxStates: maxStates}
-	}
-	ls := func(name string, proposers []bool, maxStep step, defers int, skew bool, crashes int, maxStates int64) *eagrBFS {
-		b := mk(name, proposers, maxStep, crashes, maxStates)
-		b.cfg.ordered = true
-		b.lockstep, b.maxDefers, b.skew = true, defers, skew
-		return b
-	}
-	return []*eagrBFS{
-		ls("ls-3h-2of3-3prop", nil, next, 0, false, 0, ve.Pick[int64](300000, 3000000)),
-		mk("bfs-3h-2of3-1prop", []bool{true, false, false}, next, 0, ve.Pick[int64](20000, 3000000)),
-	}
-}
-
 func TestVerif_C01(t *testing.T) {
-	r := ve.NewRun("C01", "model_checking")
-	configs := c01BFSConfigs()
-	byName := map[string]*eagrBFS{}
-	for _, b := range configs {
-		byName[b.name] = b
-	}
-	if raw := r.ReplayRequest(); raw != nil {
-		var rp c01Replay
-		if err := json.Unmarshal(raw, &rp); err != nil {
-			t.Fatalf("bad replay file: %v", err)
-		}
-		b := byName[rp.Config]
-		if b == nil {
-			t.Fatalf("unknown config %q", rp.Config)
-		}
-		var evs []eagrEv
-		_, err := eagrReplay(b.cfg, rp.Events, func(i int, e eagrEv, s *eagrSys, out *eagrOut) bool {
-			evs = append(evs, e)
-			fmt.Printf("REPLAY %3d %v\n", i, e)
-			for _, sub := range out.subs {
-				fmt.Printf("        n%d %-60s -> %v\n", sub.node, sub.event, sub.acts)
-			}
-			c01Oracle(r, "C01", rp.Config, s, e, out, func() []eagrEv { return rp.Events[:i+1] })
-			return true
-		})
-		if err != nil {
-			t.Fatalf("replay: %v", err)
-		}
-		if r.Finish(ve.Coverage{Rule: "replay", Exhaustive: false}) > 0 {
-			t.Fatal("violations")
-		}
-		return
-	}
-	var cov ve.Coverage
-	cov.Exhaustive = true
-	var total eagrStats
-	for _, b := range configs {
-		b := b
-		b.onStep = func(pre *eagrSys, e eagrEv, post *eagrSys, out *eagrOut, path func() []eagrEv) {
-			r.Eval()
-			c01Oracle(r, "C01", b.name, pre, e, out, path)
-			for _, c := range out.commits {
-				r.Class(fmt.Sprintf("%s/commit/n%d/p%d", b.name, c.node, c.period))
-			}
-		}
-		res := b.run(r)
-		cov.States += res.states
-		cov.Transitions += res.transitions
-		cov.Traces += res.transitions
-		if !res.exhaustive {
-			cov.Exhaustive = false
-			r.Capped()
-		}
-		total.add(&res.stats)
-		r.Note("%s: states=%d transitions=%d depth=%d exhaustive=%v %s maxPeriod=%d commits=%d attests=%d persists=%d timeouts=%d deliveries=%d crashes=%d layers=%v",
-			b.name, res.states, res.transitions, res.depth, res.exhaustive, res.capReason, res.maxPeriod, res.stats.commits, res.stats.attests, res.stats.persists, res.stats.timeouts, res.stats.deliveries, res.stats.crashes, res.layerSizes)
-		fmt.Printf("C01 %s: states=%d transitions=%d depth=%d exhaustive=%v %s maxPeriod=%d commits=%d\n", b.name, res.states, res.transitions, res.depth, res.exhaustive, res.capReason, res.maxPeriod, res.stats.commits)
-		if r.Violations() > 0 {
-			break
-		}
-	}
-	r.Set("commits_observed", total.commits)
-	r.Set("submitTop_calls", total.submits)
-	cov.Rule = "under construction"
-	if r.Finish(cov) > 0 {
-		t.Fatal("violations")
-	}
+	eagrRunCheck(t, &eagrCheck{
+		id: "C01", level: "model_checking",
+		configs: eagrSafetyConfigs(ve.Pick(1, 2)),
+		oracle:  c01Oracle,
+		rule:    "under construction.",
+	})
 }
